@@ -197,7 +197,8 @@ func NewFixture() (*Fixture, sdk.Context) {
 	banktypes.RegisterMsgServer(router, bankkeeper.NewMsgServerImpl(bk))
 
 	perm := &permKeeper{key: keys[permStoreKey]}
-	bridgeHook := hook.NewBridgeHook(perm, perm, ac)
+	// as an application wires it: the repository's hook multiplexer around the permissioned-channel hook
+	bridgeHook := ophosttypes.NewBridgeHooks(hook.NewBridgeHook(perm, perm, ac))
 	hk := ophostkeeper.NewKeeper(cdc, runtime.NewKVStoreService(keys[ophosttypes.StoreKey]), ak, bk, communityPool{bk}, bridgeHook, authority)
 	if err := hk.SetParams(ctx, ophosttypes.DefaultParams()); err != nil {
 		panic(err)
